@@ -227,6 +227,29 @@ pub fn cmd_spec(r: &mut Runner, t: &[&str]) -> String {
         b.copy_from_slice(&bytes[8..16]);
         b
     });
+    // C09, footer and header read by the format description alone
+    if let Some(e) = r.expect.clone() {
+        let n = bytes.len();
+        let v = crate::run::version_of(&bytes);
+        let foot = if v >= 3 { 4 } else { 0 };
+        if n >= 32 + foot {
+            let rd = |at: usize| -> u64 {
+                let mut b = [0u8; 8];
+                b.copy_from_slice(&bytes[at..at + 8]);
+                u64::from_le_bytes(b)
+            };
+            let len_field = rd(n - foot - 16);
+            let root = rd(n - foot - 8);
+            r.check(len_field == e.len() as u64, || format!("C09 footer key count {} but {} distinct keys", len_field, e.len()));
+            r.check(root == 0 || root as usize + 17 + foot == n, || format!("C09 root address {} is not the last node of a {}-byte file", root, n));
+            if v >= 3 {
+                let mut c = [0u8; 4];
+                c.copy_from_slice(&bytes[n - 4..]);
+                let want = mask(crc32c_bitwise(&bytes[..n - 4]));
+                r.check(u32::from_le_bytes(c) == want, || "C09 trailing checksum is not the masked CRC-32C of the preceding bytes".to_string());
+            }
+        }
+    }
     match &r.expect {
         Some(e) => format!(
             "spec v={} ty={} len={} tiled=true {}",
@@ -268,22 +291,41 @@ pub fn cmd_merge(r: &mut Runner, t: &[&str]) -> String {
     let dir = std::env::var("FST_TMP").unwrap_or_else(|_| "/verif/target/tmp".into());
     std::fs::create_dir_all(&dir).unwrap();
     let tag = format!("{}-{}", std::process::id(), r.line_no);
-    let inp = format!("{}/in-{}.csv", dir, tag);
     let outp = format!("{}/out-{}.fst", dir, tag);
-    let mut text = String::new();
-    for (k, v) in &rows {
-        let ks = String::from_utf8(k.clone()).unwrap();
-        if mode == "set" {
-            text.push_str(&format!("{}\n", ks));
-        } else {
-            text.push_str(&format!("{},{}\n", ks, v));
-        }
+    // the rows are spread over 1..3 input files (consecutive chunks, so the
+    // concatenation is the row list); with several files an EMPTY file is put
+    // in between (not last)
+    let salt = fnv64(t.join(" ").as_bytes());
+    let nfiles = 1 + (salt % 3) as usize;
+    let mut chunks: Vec<Vec<(Vec<u8>, u64)>> = vec![vec![]; nfiles];
+    let per = (rows.len() + nfiles - 1) / nfiles.max(1);
+    for (i, row) in rows.iter().enumerate() {
+        chunks[(i / per.max(1)).min(nfiles - 1)].push(row.clone());
     }
-    std::fs::write(&inp, text).unwrap();
+    if nfiles >= 2 {
+        chunks.insert(1 + ((salt >> 8) as usize % (nfiles - 1)), vec![]);
+    }
+    let mut inputs = vec![];
+    for (j, ch) in chunks.iter().enumerate() {
+        let path = format!("{}/in-{}-{}.csv", dir, tag, j);
+        let mut text = String::new();
+        for (k, v) in ch {
+            let ks = String::from_utf8(k.clone()).unwrap();
+            if mode == "set" {
+                text.push_str(&format!("{}\n", ks));
+            } else {
+                text.push_str(&format!("{},{}\n", ks, v));
+            }
+        }
+        std::fs::write(&path, text).unwrap();
+        inputs.push(path);
+    }
     let mut cmd = Command::new(&bin);
-    cmd.arg(if mode == "set" { "set" } else { "map" })
-        .arg(&inp)
-        .arg(&outp)
+    cmd.arg(if mode == "set" { "set" } else { "map" });
+    for p in &inputs {
+        cmd.arg(p);
+    }
+    cmd.arg(&outp)
         .arg("--force")
         .arg("--batch-size")
         .arg(batch)
@@ -306,7 +348,9 @@ pub fn cmd_merge(r: &mut Runner, t: &[&str]) -> String {
     }
     let out = cmd.output().unwrap();
     let line = t.join(" ");
-    let _ = std::fs::remove_file(&inp);
+    for p in &inputs {
+        let _ = std::fs::remove_file(p);
+    }
     if !out.status.success() {
         r.check(false, || format!("C19 fst exited with {:?}: {} :: {}", out.status.code(), String::from_utf8_lossy(&out.stderr), line));
         return "merge failed".into();
